@@ -1,4 +1,5 @@
 import Driver.PoolCmd
+import Driver.ValidCmd
 open Drv
 
 partial def poolLoop (h : IO.FS.Stream) (out : IO.FS.Stream) (cur : Option Ipam.Pool) : IO Unit := do
@@ -12,9 +13,20 @@ partial def poolLoop (h : IO.FS.Stream) (out : IO.FS.Stream) (cur : Option Ipam.
     out.putStrLn o
     poolLoop h out cur'
 
+partial def lineLoop (h : IO.FS.Stream) (out : IO.FS.Stream) (f : String → String) : IO Unit := do
+  let line ← h.getLine
+  if line.isEmpty then return ()
+  let l := line.trimAscii.toString
+  if l.isEmpty || l.startsWith "#" then
+    lineLoop h out f
+  else
+    out.putStrLn (f l)
+    lineLoop h out f
+
 def main (args : List String) : IO UInt32 := do
   let stdin ← IO.getStdin
   let stdout ← IO.getStdout
   match args with
   | ["pool"] => poolLoop stdin stdout none; return 0
+  | ["valid"] => lineLoop stdin stdout validStep; return 0
   | _ => IO.eprintln "usage: driver pool|..."; return 2
